@@ -411,6 +411,10 @@ class Labels(Machine):
         ctx.require(walker.digest(x) == before, "input_intact", "labeller_modified_input_" + name)
         op_ = np.asarray(out.points)
         # pure re-indexing: every output point is a distinct input point
+        if op_.ndim != 2 or op_.shape[1] != pts.shape[1]:
+            ctx.fail("labeller", "not_a_reindexing_" + name,
+                     "output points have shape %r for an input of shape %r" % (op_.shape, pts.shape))
+            return
         idx = []
         for p in op_:
             hit = np.nonzero(np.all(pts == p, axis=1))[0]
